@@ -60,6 +60,9 @@ type Obligation struct {
 	WantName map[string]string // term -> readable name
 	smt      *SMT
 	Note     string
+	exec     *Exec
+	frame    *Frame
+	clause   *Clause
 }
 
 type deferred struct {
@@ -114,6 +117,7 @@ type Exec struct {
 	trusted   map[string]bool // externs / models / assumptions used
 	inlined   map[string]bool
 	noInline  bool
+	topFrame     *Frame
 	wantLiveness bool
 	livenessTag  []string
 }
@@ -453,7 +457,7 @@ func (x *Exec) oblige(st *State, kind, name string, tags []string, pos token.Pos
 	if st.dead || st.pc == "false" {
 		return nil
 	}
-	o := &Obligation{Name: name, Kind: kind, Tags: tags, prefix: len(x.smt.asserts), pc: st.pc, goal: goal, smt: x.smt}
+	o := &Obligation{Name: name, Kind: kind, Tags: tags, prefix: len(x.smt.asserts), pc: st.pc, goal: goal, smt: x.smt, exec: x, frame: x.topFrame}
 	if x.topFn != nil {
 		o.Func = x.topFn.String()
 	}
